@@ -1245,3 +1245,99 @@ func enumeratePaths(fn *ssa.Function, maxPaths int, visit func(in ssa.Instructio
 	walk(fn.Blocks[0], nil, &pathState{Phi: map[*ssa.Phi]ssa.Value{}, Edges: map[cfgEdge]bool{}}, map[*ssa.BasicBlock]bool{})
 	return ok
 }
+
+// ---------------------------------------------------------------------------
+// abstract path interpretation over assumed boolean facts
+
+// absPath is one feasible path of a loop-free function under the assumptions.
+type absPath struct {
+	Instrs []ssa.Instruction
+	Ret    *ssa.Return
+	St     *pathState
+}
+
+// abstractPaths enumerates the acyclic paths of fn that are feasible under
+// `assume`, which gives the truth value of selected boolean SSA values
+// (comparisons, call results); conditions are evaluated through NOT, phis
+// chosen on the path and constants. Unknown conditions fork.
+func abstractPaths(fn *ssa.Function, maxPaths int, assume func(v ssa.Value) (bool, bool)) ([]absPath, bool) {
+	var out []absPath
+	ok := true
+	var eval func(st *pathState, v ssa.Value) (bool, bool)
+	eval = func(st *pathState, v ssa.Value) (bool, bool) {
+		v = st.resolve(v)
+		if b, isC := constBool(v); isC {
+			return b, true
+		}
+		if b, known := assume(v); known {
+			return b, true
+		}
+		if u, isU := v.(*ssa.UnOp); isU && u.Op == token.NOT {
+			if b, known := eval(st, u.X); known {
+				return !b, true
+			}
+		}
+		if b, isB := v.(*ssa.BinOp); isB && (b.Op == token.EQL || b.Op == token.NEQ) {
+			// comparison of two known booleans
+			l, lk := eval(st, b.X)
+			r, rk := eval(st, b.Y)
+			if lk && rk && b.X.Type().Underlying().String() == "bool" {
+				if b.Op == token.EQL {
+					return l == r, true
+				}
+				return l != r, true
+			}
+		}
+		return false, false
+	}
+	var walk func(b, pred *ssa.BasicBlock, st *pathState, instrs []ssa.Instruction, onPath map[*ssa.BasicBlock]bool)
+	walk = func(b, pred *ssa.BasicBlock, st *pathState, instrs []ssa.Instruction, onPath map[*ssa.BasicBlock]bool) {
+		if !ok || onPath[b] {
+			return
+		}
+		onPath[b] = true
+		defer delete(onPath, b)
+		for _, in := range b.Instrs {
+			if p, isPhi := in.(*ssa.Phi); isPhi {
+				for i, pr := range b.Preds {
+					if pr == pred {
+						st.Phi[p] = p.Edges[i]
+					}
+				}
+			}
+			instrs = append(instrs, in)
+			switch x := in.(type) {
+			case *ssa.If:
+				val, known := eval(st, x.Cond)
+				for i := 0; i < 2; i++ {
+					if known && (i == 0) != val {
+						continue
+					}
+					ns := &pathState{Phi: map[*ssa.Phi]ssa.Value{}, Edges: map[cfgEdge]bool{}}
+					for k, v := range st.Phi {
+						ns.Phi[k] = v
+					}
+					for k, v := range st.Edges {
+						ns.Edges[k] = v
+					}
+					ns.Edges[cfgEdge{b, i}] = true
+					walk(b.Succs[i], b, ns, append([]ssa.Instruction(nil), instrs...), onPath)
+				}
+				return
+			case *ssa.Jump:
+				walk(b.Succs[0], b, st, instrs, onPath)
+				return
+			case *ssa.Return:
+				out = append(out, absPath{Instrs: instrs, Ret: x, St: st})
+				if len(out) > maxPaths {
+					ok = false
+				}
+				return
+			case *ssa.Panic:
+				return
+			}
+		}
+	}
+	walk(fn.Blocks[0], nil, &pathState{Phi: map[*ssa.Phi]ssa.Value{}, Edges: map[cfgEdge]bool{}}, nil, map[*ssa.BasicBlock]bool{})
+	return out, ok
+}
